@@ -34,11 +34,15 @@ func (s *headerScanner) next() bool {
 			return false
 		}
 
-		if s.blockEnd >= 4 && s.blockEnd <= len(s.b) &&
-			bytes.Equal(s.b[s.blockEnd-4:s.blockEnd], strCRLFCRLF) {
-			// The caller already found the end of the block, no need to
-			// search for it again. The first CRLFCRLF can only sit at
-			// blockEnd-4 since readRawHeaders stops at the first blank line.
+		if s.blockEnd > 0 && s.blockEnd <= len(s.b) {
+			// The caller already found the end of the block (the first blank
+			// line, see readRawHeaders): never look beyond it, the bytes that
+			// follow belong to the body or to the next message. Lines may end
+			// in a bare LF, but the blank line itself must be CRLF.
+			if s.blockEnd < 2 || s.b[s.blockEnd-2] != rChar {
+				s.err = errors.New("invalid headers, header block must be terminated by CRLF")
+				return false
+			}
 			s.b = s.b[:s.blockEnd]
 		} else {
 			i := bytes.Index(s.b, strCRLFCRLF)
